@@ -31,6 +31,8 @@ KINDS = {
     "badres": ("value", "unpicklable-result"),    # remote only: result cannot be pickled
     "bigres": ("value", "oversize-result"),       # remote only: result exceeds MAX_MESSAGE_SIZE
     "funlock": ("value", "lock-handler-crash"),   # force_unlock() on an unlocked object
+    "retexc": ("value", None),                    # the method RETURNS an exception object (a value like any other)
+    "lookup": ("value", None),                    # the method itself uses its context while executing (by-name look-up)
     # values that the sender can pickle but the receiver cannot unpickle (remote only): the receiving side has to turn
     # this into an outcome (on the current source: it drops the connection, every pending call ends with a delivery error)
     "unlexc": ("exc", "unloadable-reply"),        # the method raises an exception that cannot be rebuilt by the caller's side
@@ -116,6 +118,19 @@ def _probe_class():
                 return b"x" * (2 * SMALL_MAX)
 
             @rpc_method
+            def retexc(self, x):
+                return ValueError(("retexc", x))
+
+            @rpc_method
+            def lookup(self, x):
+                # a method that uses its own context while it executes (as drivers do to find a sibling object)
+                try:
+                    self._context.get_rpc_object_by_name(self._context.name + ".o")
+                except Exception:  # noqa
+                    pass
+                return ("lookup", x)
+
+            @rpc_method
             def unlexc(self, x):
                 raise UnloadableError(("unlexc", x), 1)
 
@@ -150,7 +165,7 @@ def gen_scenario(rng, allow_defects=True):
     calls = []
     for i in range(ncalls):
         place = rng.choice(["loc", "rem", "rem"])
-        kind = rng.choice(["f", "f", "boom", "bexc", "is_locked"])
+        kind = rng.choice(["f", "f", "f", "boom", "bexc", "is_locked", "retexc", "lookup"])
         calls.append({"id": i, "place": place, "kind": kind, "blocking": rng.random() < 0.7})
     if defect_kind:
         c = rng.choice(calls)
@@ -285,6 +300,10 @@ def run_real(scn, seed, policy="weighted", change_points=None, probe_after=True)
             return tgt.badres(i)
         if k == "bigres":
             return tgt.bigres(i)
+        if k == "retexc":
+            return tgt.retexc(i)
+        if k == "lookup":
+            return tgt.lookup(i)
         if k == "unlexc":
             return tgt.unlexc(i)
         if k == "unlres":
@@ -325,7 +344,9 @@ def run_real(scn, seed, policy="weighted", change_points=None, probe_after=True)
             return f"x:ProbeBaseExc{e.args!r}"[:60]
         except BaseException as e:  # noqa
             return f"x:{type(e).__name__}"
-        exp = {"f": ("f", i * 2), "badarg": ("badarg", i), "unlarg": ("unlarg", i)}
+        exp = {"f": ("f", i * 2), "badarg": ("badarg", i), "unlarg": ("unlarg", i), "lookup": ("lookup", i)}
+        if k == "retexc":
+            return "v" if (type(v) is ValueError and v.args == (("retexc", i),)) else f"crosstalk:{v!r}"[:60]
         if k in exp and v != exp[k]:
             return f"crosstalk:{v!r}"[:60]
         if k == "is_locked" and v is not bool(scn["prelocked"]):
